@@ -449,3 +449,13 @@ for _p in ("C03", "C07"):
         "container/heap is TRANSCRIBED (Txcache/Heap.v: Init/Push/Pop/up/down with fuel proved sufficient) and its Pop is PROVED to return the element the model's "
         "pick_best / worst_index designates, keeping a heap over the remaining cursors; the WHOLE loops run on that heap (Txcache/HeapLoop.v: heap.Init, a heap.Push per bunch, heap.Pop/heap.Push per iteration, all eviction passes) "
         "are PROVED equal to the models used elsewhere: heap_select = select for all bunches with distinct hashes, hdo_eviction = do_eviction for all pools satisfying the invariant (Props/C03b.v)"]
+
+# selections running WHILE transactions are being added, removed and evicted: the C01/C02 monitors judge every concurrent selection result
+for _p in ("C01", "C02"):
+    PROPS[_p]["extras"] = PROPS[_p].get("extras", []) + [{"component": "stress", "race": True, "timeout": 600}]
+    PROPS[_p]["race"] = True
+    PROPS[_p]["rule"] += " extra (race-detector binary, beyond the sequential quantifier): 12 rounds of the txcache add-only, mixed and limits stress phases; every concurrent selection result is judged by the C01/C02 monitors."
+PROPS["C11"]["extras"] = PROPS["C11"]["extras"] + [{"component": "persist", "timeout": 600}]
+PROPS["C11"]["rule"] += " Plus the sequential special case at scale (persist extra, monitor only): 20 000 keys pending in one batch read back at once, values of 128 KiB - 1 MiB put over a pending Remove / Put and read back."
+PROPS["C08"]["rule"] += " The same extra puts values of 128 KiB - 1 MiB over a pending Remove and reads them back, and overwrites slices returned by Get for flushed keys before reading again."
+PROPS["C09"]["rule"] += " The scale round also stores values of 131072, 131073, 200000 and 1048577 bytes and a key of 131081 bytes and compares them in full through RangeKeys after Close and reopen."
